@@ -8,6 +8,7 @@ require (
 )
 
 require (
+	github.com/Eyevinn/mp4ff v0.47.0 // indirect
 	github.com/mattn/go-colorable v0.1.14 // indirect
 	github.com/mattn/go-isatty v0.0.20 // indirect
 	github.com/rs/zerolog v1.33.0 // indirect
